@@ -261,6 +261,33 @@ def build_operand(t, kindname, B, role="self"):
     raise ValueError(kindname)
 
 
+def build_lazy_other(members, rep, B):
+    """another operand of a lazy-stack self, given by its slices along self's stack dim (0), in a chosen representation:
+    ["lazy", d] a lazy stack along batch dim d (d = 0: like self; d > 0: the same content stacked lazily along another dim),
+    ["regular"] a dense TensorDict, ["tc"] a tensorclass.  Whatever the representation, slice i along dim 0 is member i."""
+    if rep[0] == "lazy" and rep[1] == 0:
+        return build_lazy(members, B)
+    tds = [build_td(m, B) for m in members]
+    dense = torch.stack(tds, 0).contiguous()
+    for (path, e) in walk(members[0]):
+        if e[0] == "L":
+            B.ptrs[dense.get(path).untyped_storage().data_ptr()] = e[1]
+    B.keep.append(dense)
+    locked = members[0][2][3]
+    if rep[0] == "regular":
+        out = dense
+    elif rep[0] == "tc":
+        cls = tc_class([k for k, _ in members[0][3]])
+        out = cls._from_tensordict(dense)
+    else:
+        d = rep[1]
+        out = LazyStackedTensorDict.lazy_stack(list(dense.unbind(d)), d)
+    B.keep.append(out)
+    if locked:
+        out.lock_()
+    return out
+
+
 def build_lazy(members, B):
     tds = []
     for m in members:
